@@ -300,6 +300,155 @@ theorem run_mergeF (H : Crypto.Prims) (P : Prims) (L : SealLaws P) (kl : List Ke
         rw [plainOfF_cons e rest, List.append_assoc]
       · simp [updF, hd]
 
+-- ------------------------------------------------------------------ RFC-conformant fragmentation ⇒ a plan
+def msgLen (m : HsMsg) : Nat := 4 + m.2.length
+
+theorem encMsg_length (m : HsMsg) : (encMsg m).length = msgLen m := by
+  simp [encMsg_eq, Lemmas.TlsHello.u24_length, msgLen]; omega
+
+theorem encMsgs_cons (m : HsMsg) (r : List HsMsg) : encMsgs (m :: r) = encMsg m ++ encMsgs r := by simp [encMsgs]
+
+theorem encMsgs_append (a b : List HsMsg) : encMsgs (a ++ b) = encMsgs a ++ encMsgs b := by simp [encMsgs]
+
+/-- the messages of `rm` that fit entirely into the first `L` bytes of its encoding, and the others -/
+def completed : List HsMsg → Nat → List HsMsg × List HsMsg
+  | [], _ => ([], [])
+  | m :: r, L =>
+    if msgLen m ≤ L then (m :: (completed r (L - msgLen m)).1, (completed r (L - msgLen m)).2) else ([], m :: r)
+
+theorem completed_spec (rm : List HsMsg) (L : Nat) :
+    rm = (completed rm L).1 ++ (completed rm L).2 ∧ (encMsgs (completed rm L).1).length ≤ L ∧
+    (∀ m r, (completed rm L).2 = m :: r → L - (encMsgs (completed rm L).1).length < msgLen m) ∧
+    (∀ m ∈ (completed rm L).1, m ∈ rm) := by
+  induction rm generalizing L with
+  | nil => simp [completed, encMsgs]
+  | cons m r ih =>
+    unfold completed
+    by_cases h : msgLen m ≤ L
+    · obtain ⟨i1, i2, i3, i4⟩ := ih (L - msgLen m)
+      simp only [h, if_true]
+      refine ⟨by rw [List.cons_append, ← i1], ?_, ?_, ?_⟩
+      · rw [encMsgs_cons, List.length_append, encMsg_length]; omega
+      · intro m' r' h'
+        have := i3 m' r' h'
+        rw [encMsgs_cons, List.length_append, encMsg_length]; omega
+      · intro m' hm'
+        rcases List.mem_cons.mp hm' with rfl | hm'
+        · simp
+        · exact List.mem_cons_of_mem _ (i4 m' hm')
+    · simp only [h, if_false]
+      refine ⟨rfl, by simp [encMsgs], ?_, by simp⟩
+      intro m' r' h'
+      simp only [List.cons.injEq] at h'
+      rw [← h'.1]; simp [encMsgs]; omega
+
+theorem finEnds_ge (base : Nat) (m : HsMsg) (r : List HsMsg) : ∀ e ∈ finEnds base (m :: r), base + msgLen m ≤ e := by
+  induction r generalizing base m with
+  | nil =>
+    intro e he
+    simp only [finEnds, List.append_nil] at he
+    split at he
+    · simp only [List.mem_singleton] at he; rw [he, msgLen]; omega
+    · simp at he
+  | cons m' r' ih =>
+    intro e he
+    rw [finEnds] at he
+    rcases List.mem_append.mp he with h | h
+    · split at h
+      · simp only [List.mem_singleton] at h; rw [h, msgLen]; omega
+      · simp at h
+    · have := ih (base + 4 + m.2.length) m' e h
+      rw [msgLen] at *; omega
+
+theorem finEnds_le (base : Nat) (a : List HsMsg) : ∀ e ∈ finEnds base a, e ≤ base + (encMsgs a).length := by
+  induction a generalizing base with
+  | nil => simp [finEnds]
+  | cons m r ih =>
+    intro e he
+    rw [finEnds] at he
+    rw [encMsgs_cons, List.length_append, encMsg_length, msgLen]
+    rcases List.mem_append.mp he with h | h
+    · split at h
+      · simp only [List.mem_singleton] at h; omega
+      · simp at h
+    · have := ih _ e h; omega
+
+theorem finEnds_append (base : Nat) (a b : List HsMsg) :
+    finEnds base (a ++ b) = finEnds base a ++ finEnds (base + (encMsgs a).length) b := by
+  induction a generalizing base with
+  | nil => simp [finEnds, encMsgs]
+  | cons m r ih =>
+    have hb : base + 4 + m.2.length + (encMsgs r).length = base + (encMsgs (m :: r)).length := by
+      rw [encMsgs_cons, List.length_append, encMsg_length, msgLen]; omega
+    simp only [List.cons_append, finEnds, ih, List.append_assoc, hb]
+
+/-- the number of Finished messages ending in `(lo, base + L]` when every end of `rm` lies beyond `lo` -/
+theorem completed_fins (rm : List HsMsg) (base L lo : Nat) (hlo : ∀ e ∈ finEnds base rm, lo < e) :
+    ((finEnds base rm).filter fun e => decide (lo < e ∧ e ≤ base + L)).length = finCount (completed rm L).1 := by
+  induction rm generalizing base L with
+  | nil => simp [finEnds, completed, finCount]
+  | cons m r ih =>
+    unfold completed
+    by_cases h : msgLen m ≤ L
+    · simp only [h, if_true]
+      rw [finEnds, List.filter_append, List.length_append, finCount_cons]
+      have hr := ih (base + 4 + m.2.length) (L - msgLen m) (fun e he => hlo e (by rw [finEnds]; exact List.mem_append_right _ he))
+      have hbl : base + 4 + m.2.length + (L - msgLen m) = base + L := by rw [msgLen] at *; omega
+      rw [hbl] at hr
+      rw [hr]
+      congr 1
+      by_cases h20 : m.1 = 20
+      · have hl := hlo (base + 4 + m.2.length) (by rw [finEnds]; simp [h20])
+        simp only [h20, if_true, List.filter_cons, List.filter_nil]
+        have : decide (lo < base + 4 + m.2.length ∧ base + 4 + m.2.length ≤ base + L) = true := by
+          rw [msgLen] at h; simp; omega
+        simp [this]
+      · simp [h20]
+    · simp only [h, if_false, finCount, List.filter_nil, List.length_nil]
+      rw [List.length_eq_zero_iff, List.filter_eq_nil_iff]
+      intro e he
+      have := finEnds_ge base m r e he
+      simp; omega
+
+theorem finsRight_drop (A B : List Nat) (rem : List FEv) (o : Nat) (hA : ∀ a ∈ A, a ≤ o)
+    (h : FinsRight (A ++ B) o rem) : FinsRight B o rem := by
+  induction rem generalizing o with
+  | nil => trivial
+  | cons e r ih =>
+    cases e with
+    | ccs => exact ih o hA h
+    | app pt f => exact ih o hA h
+    | frag b n f =>
+      obtain ⟨h1, h2⟩ := h
+      refine ⟨?_, ih (o + b.length) (fun a ha => by have := hA a ha; omega) h2⟩
+      rw [h1, List.filter_append, List.length_append]
+      have : (A.filter fun e => decide (o < e ∧ e ≤ o + b.length)) = [] := by
+        rw [List.filter_eq_nil_iff]; intro a ha; have := hA a ha; simp; omega
+      rw [this]; simp
+
+theorem incomplete_prefix (m : HsMsg) (hm : MsgOk m) (rest : Bytes) (k : Nat) (hk : k < msgLen m) :
+    Incomplete ((encMsg m ++ rest).take k) := by
+  unfold Incomplete
+  by_cases h4 : k < 4
+  · left; rw [List.length_take]; omega
+  · right
+    have hlen : ((encMsg m ++ rest).take k).length = k := by
+      rw [List.length_take, List.length_append, encMsg_length]; omega
+    have hsl : Bytes.slice ((encMsg m ++ rest).take k) 1 4 = Spec.TlsHello.u24 m.2.length := by
+      have e : (encMsg m ++ rest).take k = m.1 :: (Spec.TlsHello.u24 m.2.length ++ ((m.2 ++ rest).take (k - 4))) := by
+        rw [encMsg_eq]
+        have h3 := Lemmas.TlsHello.u24_length m.2.length
+        generalize Spec.TlsHello.u24 m.2.length = u at *
+        match u, h3 with
+        | [a, b, c], _ =>
+          obtain ⟨k', rfl⟩ : ∃ k', k = k' + 4 := ⟨k - 4, by omega⟩
+          simp
+      rw [e]
+      have := slice_mid [] (Spec.TlsHello.u24 m.2.length) ((m.2 ++ rest).take (k - 4)) m.1 (Lemmas.TlsHello.u24_length _)
+      simpa using this
+    rw [hsl, Lemmas.TlsHello.beNat_u24 _ hm, hlen]
+    rw [msgLen] at hk; omega
+
 -- ------------------------------------------------------------------ when the walk is right
 theorem walk_msgs (ms : List HsMsg) (hok : ∀ m ∈ ms, MsgOk m) (pre : Bytes) (fuel : Nat) (hf : ms.length ≤ fuel) :
     walk (pre ++ encMsgs ms) fuel pre.length = ms.map (·.1) := by
